@@ -154,18 +154,18 @@ def handle (fs : List String) : String :=
     | some d, some m, some st, some hsame, some hd, some hi, some sub, some ti, some rk, some ls =>
       showDicts (parseDelimitedTable ls d m st (if hsame then .same else .other hd) hi sub ti rk)
     | _, _, _, _, _, _, _, _, _, _ => "bad-op"
-  | ["ks", rkc, order, rows, kw] => match decBool rkc, decStrList order, decRows rows, decPairs kw with
-    | some rkc, some order, some rows, some kw =>
-      -- `order` = the iteration order of the key set observed in the interpreter; it must be one
-      if !(rows.isEmpty || isOrderOf order (keySet rows rkc)) then "bad-order" else
-      "ok " ++ ";".intercalate ((keywordSearchTx IV.Gen.Matchers.table (txKeysOf order) rows kw).map showRow)
-    | _, _, _, _ => "bad-op"
-  | "ksseq" :: rkc :: order :: rows :: kws => match decBool rkc, decStrList order, decRows rows, sequenceOpt (kws.map decPairs) with
-    | some rkc, some order, some rows, some kws =>
-      if !(rows.isEmpty || isOrderOf order (keySet rows rkc)) then "bad-order" else
-      " | ".intercalate ((keywordSearchSeq IV.Gen.Matchers.table order rows none kws).map
+  | ["ks", rkc, rows, kw] => match decBool rkc, decRows rows, decPairs kw with
+    | some rkc, some rows, some kw =>
+      "ok " ++ ";".intercalate ((keywordSearch IV.Gen.Matchers.table rows rkc kw).map showRow)
+    | _, _, _ => "bad-op"
+  | "ksseq" :: rkc :: rows :: kws => match decBool rkc, decRows rows, sequenceOpt (kws.map decPairs) with
+    | some rkc, some rows, some kws =>
+      " | ".intercalate ((keywordSearchSeq IV.Gen.Matchers.table (keySet rows rkc) rows none kws).map
         (fun r => "ok " ++ ";".intercalate (r.map showRow)))
-    | _, _, _, _ => "bad-op"
+    | _, _, _ => "bad-op"
+  | ["sort", ks] => match decStrList ks with
+    | some ks => showList (sortKeys ks)
+    | none => "bad-op"
   | ["kwof", s] => match decStr s with
     | some s => encStr (kwOf s) ++ " " ++ encStr (txKey s)
     | none => "bad-op"
